@@ -59,7 +59,7 @@ func classifyRace(r raceReport) string {
 }
 
 func checkC12(ctx *Ctx) {
-	ctx.Res.Rule = "the workflow interpreter built with `go build -race` (verification hooks disabled at run time) runs: fan-out of one out-port to 2-3 consumers, fan-in, diamonds, multi-core tasks, FromStr / ParamSource feeders, RunTo with feeders, MapToTags followed by fan-out, sub-stream joins, random DAGs; every `WARNING: DATA RACE` block is parsed (scipipe functions on both stacks) and classified; non-trivial = workflow has a fan-out, fan-in or a component; distinct by workflow. The Lean side checks the lock / ownership / phase discipline of every syntactic access to the shared fields on the regenerated access table."
+	ctx.Res.Rule = "the workflow interpreter built with `go build -race` (verification hooks disabled at run time) runs: fan-out of one out-port to 2-3 consumers, fan-in, diamonds, multi-core tasks, FromStr / ParamSource feeders, RunTo with feeders, MapToTags followed by fan-out, sub-stream joins, random DAGs; every `WARNING: DATA RACE` block is parsed (scipipe functions on both stacks) and classified; non-trivial = workflow has a fan-out, fan-in or a component; distinct by workflow. The Lean side checks the lock / ownership / phase discipline of every syntactic access to the shared fields on the regenerated access table; also: two taggers in a row, a task with a streaming and an ordinary out-port (repeated), RunTo while FromStr feeders are just finishing (repeated)."
 	root := newDir()
 	defer os.RemoveAll(root)
 	bin := filepath.Join(root, "vharness-race")
